@@ -4,6 +4,8 @@ import TongoProofs.Lemmas.HashmapSigned
 import TongoProofs.Lemmas.HashmapAug
 import TongoProofs.Lemmas.HashmapPruned
 import TongoProofs.Lemmas.HashmapSound
+import TongoGen.HashmapKeys
+import TongoProofs.Lemmas.HashmapCanon
 /-! # Property C05 — dictionaries (Hashmap / HashmapE) preserve their key→value mapping
 
 Model: `TongoModel/Hashmap.lean` (mirror of tlb/hashmap.go after the repairs recorded in known_findings.txt).
@@ -12,8 +14,10 @@ Marshal/Unmarshal of the value type do at the end of a leaf cell, `pay v` the bi
 
 Hypotheses used below (all satisfiable, see the examples at the end):
 * `DecodesValue C pay v` : the value decoder reads back `pay v` (asked only of the values that occur);
-* `Fits C pay n v`       : the value encoder produces `pay v`, the leaf has room for it next to a full-width label, and
-                           `DecodesValue C pay v`;
+* `Fits C pay n v`       : the value encoder produces `pay v`, the leaf has room for it next to a full-width label
+                           (a SUFFICIENT size condition, attained by a single mixed-bit key; a leaf below forks has a
+                           shorter label and more room), and `DecodesValue C pay v`. Theorems about successful encodings
+                           (`marshal_sound`, `marshal_unmarshal_sound`) need no size condition at all: `Encodes`;
 * `SortedKV kvs`         : entries listed in strictly ascending order of key bits (`lexLt`);
 * `HTree.Valid n t`      : `t` is a TL-B `Hashmap n X` tree, any of hml_short / hml_long / hml_same on any edge.
 -/
@@ -38,9 +42,9 @@ theorem width_lt_of_fits (C : Codec V) (pay : V → List Bool × List Cell) (n :
   have := h.2.1
   omega
 
-/-- The encoder writes every edge label in the shortest of the three TL-B forms (TON's canonical choice), so a
-dictionary read from the chain is written back with the same cells: no other serialisation of the same label is shorter.
-(That the tie-breaks are TON's too is checked on every run by `go.hm.reencode` on the real dictionaries.) -/
+/-- The encoder writes every edge label in the shortest of the three TL-B forms: no other serialisation of the same label
+is shorter. (Minimal LENGTH only; that the choice among equally short forms is TON's is part of `reencode_canonical`
+below, and that `canonLbl` is TON's rule is checked on real chain dictionaries by the oracle `go.hm.reencode`.) -/
 theorem labels_shortest (label : Key) (m : Nat) (l' : Lbl) (h : l'.bits = label) :
     (encLabelBits label (m : Int)).length ≤ (l'.enc m).length :=
   encLabelBits_shortest label m l' h
@@ -293,33 +297,79 @@ theorem aug_inline_decode_any_valid {Y : Type} (xdec : XDec Y) (zero : Y)
 
 /-! ## No silent corruption: arbitrary slices, colliding keys, the typed layer -/
 
-/-- Soundness of Marshal for ANY slice of `n`-bit keys, duplicates allowed (e.g. two typed keys outside their domain that
-truncate to the same bits): whenever Marshal succeeds the keys were pairwise distinct and Unmarshal returns exactly the
-given entries in ascending key-bit order. Colliding keys therefore make Marshal fail; they never overwrite or drop
-OTHER entries. -/
-theorem marshal_sound (C : Codec V) (pay : V → List Bool × List Cell) (n : Nat) (kvs : List (Key × V))
-    (hw : ∀ kv ∈ kvs, kv.1.length = n) (hfit : ∀ kv ∈ kvs, Fits C pay n kv.2) (c : Cell)
+/-- what a theorem about SUCCESSFUL encodings needs of the value codec: `enc` produces `pay v` and `dec` reads it back.
+No size condition: a value that does not fit makes Marshal fail, and failure is not a wrong tree. -/
+def Encodes (C : Codec V) (pay : V → List Bool × List Cell) (v : V) : Prop :=
+  C.enc v = .ok (pay v) ∧ DecodesValue C pay v
+
+/-- Soundness of `Hashmap.MarshalTLB` (the root goes into a fresh cell, as under `^`) for ANY non-empty slice of `n`-bit
+keys — any order, duplicates allowed, values of any size: whenever it succeeds, the keys were pairwise distinct, the
+root is an ordinary cell, and `Hashmap.UnmarshalTLB` of it returns exactly the given entries in ascending key-bit order.
+(This is the form the TL-B codec model applies to its `dict` / `dictE` nodes: keys as bit lists of the descriptor's key
+width, values through an arbitrary codec.) -/
+theorem marshal_unmarshal_sound (C : Codec V) (pay : V → List Bool × List Cell) (n : Nat) (hn : n < 2 ^ 64)
+    (kvs : List (Key × V)) (hne : kvs ≠ []) (hw : ∀ kv ∈ kvs, kv.1.length = n)
+    (henc : ∀ kv ∈ kvs, Encodes C pay kv.2) (root : Cell) (h : marshal C n kvs = .ok root) :
+    (keysOf kvs).Nodup ∧ SortedKV (sortKV kvs) ∧ root.ty = 0 ∧ unmarshal C n root = .ok (sortKV kvs) := by
+  have hp := sortKV_perm kvs
+  have hmax : maxKeyLen kvs = n := maxKeyLen_eq n _ hne hw
+  have hemp : kvs.isEmpty = false := by cases kvs <;> simp_all
+  simp only [marshal, hemp, Bool.false_eq_true, if_false, hmax] at h
+  have hws : ∀ kv ∈ sortKV kvs, kv.1.length = n := fun kv hkv => hw kv (hp.mem_iff.mp hkv)
+  have hs := encodeMap_ok_strict C (n + 1) n _ root hws (sortKV_weak n _ hw) h
+  obtain ⟨t, hv, hm, hc⟩ := encodeMap_ok_tree C pay (n + 1) n _ root hws hs
+    (fun kv hkv => (henc kv (hp.mem_iff.mp hkv)).1) h
+  have hdec : ∀ kv ∈ t.meaning, DecodesValue C pay kv.2 := by
+    rw [hm]; exact fun kv hkv => (henc kv (hp.mem_iff.mp hkv)).2
+  refine ⟨(hp.map Prod.fst).nodup (sortedBy_nodup lexLt lexLt_irrefl _ hs), hs, by rw [hc]; exact toCell_ty pay t n, ?_⟩
+  rw [hc]
+  unfold unmarshal
+  rw [toCell_ty]
+  have h0 : ¬ ((0 : Nat) = tyLibrary) := by decide
+  simp only [h0, if_false]
+  rw [mapInner_toCell C pay n hn t hdec n [] (n + 1) hv (by simp) (Nat.lt_succ_self n), hm]
+  simp
+
+/-- …and Marshal does succeed when the keys are distinct and every value fits (`Fits` is a sufficient size condition). -/
+theorem marshal_succeeds (C : Codec V) (pay : V → List Bool × List Cell) (n : Nat) (kvs : List (Key × V))
+    (hne : kvs ≠ []) (hnd : (keysOf kvs).Nodup) (hw : ∀ kv ∈ kvs, kv.1.length = n)
+    (hfit : ∀ kv ∈ kvs, Fits C pay n kv.2) : ∃ root, marshal C n kvs = .ok root := by
+  have hp := sortKV_perm kvs
+  have hwk : ∀ k ∈ keysOf kvs, k.length = n := by
+    intro k hk; obtain ⟨x, hx, rfl⟩ := List.mem_map.mp hk; exact hw x hx
+  have hne' : sortKV kvs ≠ [] := by
+    intro h; rw [h] at hp; exact hne (List.Perm.eq_nil hp.symm)
+  obtain ⟨t, _, _, he⟩ := encode_sorted_tree C pay n (sortKV kvs) hne'
+    (fun kv hkv => hw kv (hp.mem_iff.mp hkv)) (sortKV_sorted n kvs hnd hwk) (fun kv hkv => hfit kv (hp.mem_iff.mp hkv))
+  have hemp : kvs.isEmpty = false := by cases kvs <;> simp_all
+  exact ⟨_, by simp only [marshal, hemp, Bool.false_eq_true, if_false, maxKeyLen_eq n _ hne hw]; exact he⟩
+
+/-- Soundness of `HashmapE.MarshalTLB` for ANY slice of `n`-bit keys, duplicates allowed (e.g. two typed keys outside their
+domain that truncate to the same bits), values of any size: whenever Marshal succeeds the keys were pairwise distinct and
+Unmarshal returns exactly the given entries in ascending key-bit order. Colliding keys and oversized values therefore
+make Marshal fail; they never overwrite, drop or alter OTHER entries. -/
+theorem marshal_sound (C : Codec V) (pay : V → List Bool × List Cell) (n : Nat) (hn : n < 2 ^ 64) (kvs : List (Key × V))
+    (hw : ∀ kv ∈ kvs, kv.1.length = n) (henc : ∀ kv ∈ kvs, Encodes C pay kv.2) (c : Cell)
     (h : marshalE C n kvs = .ok c) :
-    (keysOf kvs).Nodup ∧ unmarshalE C n c = .ok (sortKV kvs) := by
-  have hnd : (keysOf kvs).Nodup := by
-    cases kvs with
-    | nil => simp [keysOf]
-    | cons x rest =>
-      have hmax : maxKeyLen (x :: rest) = n := maxKeyLen_eq n _ (by simp) hw
-      simp only [marshalE, marshal, List.isEmpty_cons, Bool.false_eq_true, if_false, hmax] at h
-      cases he : encodeMap C (n + 1) (sortKV (x :: rest)) (n : Int) with
-      | ok r =>
-        have hp := sortKV_perm (x :: rest)
-        have hs := encodeMap_ok_strict C (n + 1) n _ r (fun kv hkv => hw kv (hp.mem_iff.mp hkv))
-          (sortKV_weak n _ hw) he
-        exact (hp.map Prod.fst).nodup (sortedBy_nodup lexLt lexLt_irrefl _ hs)
-      | err e => rw [he] at h; cases h
-      | panic p => rw [he] at h; cases h
-  refine ⟨hnd, ?_⟩
-  obtain ⟨c', h1, h2, _⟩ := (hashmapE_roundtrip C pay n kvs hnd hw hfit).2
-  rw [h1] at h
-  cases h
-  exact h2
+    (keysOf kvs).Nodup ∧ SortedKV (sortKV kvs) ∧ unmarshalE C n c = .ok (sortKV kvs) := by
+  cases kvs with
+  | nil =>
+    simp only [marshalE, List.isEmpty_nil, if_true] at h
+    cases h
+    exact ⟨by simp [keysOf], by simp [sortKV, SortedKV], by simpa [sortKV] using decode_empty C n⟩
+  | cons x rest =>
+    simp only [marshalE, List.isEmpty_cons, Bool.false_eq_true, if_false] at h
+    cases hm : marshal C n (x :: rest) with
+    | ok root =>
+      rw [hm] at h
+      cases h
+      obtain ⟨h1, h2, h3, h4⟩ := marshal_unmarshal_sound C pay n hn (x :: rest) (by simp) hw henc root hm
+      refine ⟨h1, h2, ?_⟩
+      have h0 : ¬ ((0 : Nat) = tyLibrary) := by decide
+      have h1' : ¬ ((0 : Nat) = tyPruned) := by decide
+      simp only [unmarshalE, ty_ordinary, bits_ordinary, refs_ordinary, h0, if_false, h3, h1', h4]
+    | err e => rw [hm] at h; cases h
+    | panic p => rw [hm] at h; cases h
 
 /-- the typed layer, integer keys inside their domain: `WriteInt` writes the two's complement encoding the model uses -/
 theorem encIntKey_in_range (n : Nat) (v : Int) (hn : 2 ≤ n) (hlo : -(2 ^ (n - 1) : Int) ≤ v) (hhi : v < (2 ^ (n - 1) : Int)) :
@@ -340,6 +390,82 @@ these types `Put`'s slice order is already the order `encodeMap` needs -/
 theorem bytes_compare_is_bit_order (a b : List UInt8) (h : a.length = b.length) :
     ltBytes a b = lexLt (Bits.bytesToBits a) (Bits.bytesToBits b) :=
   ltBytes_eq_lexLt a b h
+
+/-- Re-encoding is the identity on canonical dictionaries: if every label of a valid tree `t` is the form `encodeLabel`
+picks for its bits (`HTree.Canonical`: hml_same for an all-equal label of n > 1 bits when k < 2n−1, else hml_long when
+k < n, else hml_short — ties included), then Marshal of its entries, in ANY slice order, writes `t` back cell for cell.
+So a dictionary decoded from such a tree and encoded again has the same cells, hence the same hash. -/
+theorem reencode_canonical (C : Codec V) (pay : V → List Bool × List Cell) (n : Nat) (t : HTree V) (hv : t.Valid n)
+    (hc : t.Canonical n) (hfit : ∀ kv ∈ t.meaning, Fits C pay n kv.2) (kvs : List (Key × V))
+    (hp : kvs.Perm t.meaning) : marshalE C n kvs = .ok (wrapE (t.toCell pay n)) := by
+  have hs := meaning_sorted t n hv
+  have hw := meaning_key_length t n hv
+  have hnd := sortedBy_nodup lexLt lexLt_irrefl t.meaning hs
+  have hwk : ∀ kv ∈ kvs, kv.1.length = n := fun kv hkv => hw kv (hp.mem_iff.mp hkv)
+  have hsort : sortKV kvs = t.meaning := by
+    rw [sortKV_perm_eq n kvs t.meaning hp ((hp.map Prod.fst).symm.nodup hnd) (by
+      intro k hk; obtain ⟨x, hx, rfl⟩ := List.mem_map.mp hk; exact hwk x hx)]
+    exact sortKV_of_sorted _ hs
+  have hne : kvs ≠ [] := by
+    intro h; rw [h] at hp; exact meaning_ne_nil t (List.Perm.eq_nil hp.symm)
+  have hemp : kvs.isEmpty = false := by cases kvs <;> simp_all
+  simp only [marshalE, marshal, hemp, Bool.false_eq_true, if_false, maxKeyLen_eq n kvs hne hwk, hsort]
+  rw [encodeMap_canonical C pay n t (n + 1) n (Nat.le_refl n) (Nat.lt_succ_self n) hv hc hfit]
+  rfl
+
+/-! ## Every shipped key type (the regenerated table `TongoGen.HashmapKeys.table`, all 137 types) -/
+
+/-- the model's comparison for a key type of the table: two's complement numeric for IntN, unsigned big-endian order of
+the encoding for everything else -/
+def ltOf (k : Gen.HashmapKeys.KeyType) : Key → Key → Bool := if k.signed then ltSigned else ltUnsigned
+
+/-- for EVERY key type of package tlb, the comparison the model uses for it is a strict total order on keys of its
+FixedSize -/
+theorem every_key_type_strict_total :
+    ∀ k ∈ Gen.HashmapKeys.table, StrictTotalOn (ltOf k) k.fixedSize := by
+  intro k _
+  unfold ltOf
+  split
+  · exact strictTotal_ltSigned _
+  · exact strictTotal_ltUnsigned _
+
+/-- `Put` keeps the slice ordered by `Compare`, duplicate-free and of the right width — instantiated for every key type -/
+theorem put_sorted_every_key_type (k : Gen.HashmapKeys.KeyType) (hk : k ∈ Gen.HashmapKeys.table)
+    (d : List (Key × V)) (key : Key) (v : V) (hlen : key.length = k.fixedSize) (hs : SortedBy (ltOf k) d)
+    (hw : ∀ x ∈ keysOf d, x.length = k.fixedSize) :
+    SortedBy (ltOf k) (put (ltOf k) d key v) ∧ (keysOf (put (ltOf k) d key v)).Nodup ∧
+      ∀ x ∈ keysOf (put (ltOf k) d key v), x.length = k.fixedSize :=
+  put_sorted (ltOf k) k.fixedSize (every_key_type_strict_total k hk) d key v hlen hs hw
+
+/-- …and that comparison IS what each family's Go `Compare` computes on the typed values (the table's `cmp` column:
+numeric for UintN / IntN, bytes.Compare for BitsN, (uint32 workchain, bytes) for the address key), for values inside
+the type's domain. -/
+theorem typed_compare_is_model_compare :
+    (∀ n a b, a < 2 ^ n → b < 2 ^ n → ltUnsigned (Bits.natToBits n a) (Bits.natToBits n b) = decide (a < b)) ∧
+    (∀ n a b ka kb, encIntKey n a = .ok ka → encIntKey n b = .ok kb → 2 ≤ n →
+      -(2 ^ (n - 1) : Int) ≤ a → a < (2 ^ (n - 1) : Int) → -(2 ^ (n - 1) : Int) ≤ b → b < (2 ^ (n - 1) : Int) →
+      ltSigned ka kb = decide (a < b)) ∧
+    (∀ a b : List UInt8, a.length = b.length →
+      ltUnsigned (Bits.bytesToBits a) (Bits.bytesToBits b) = ltBytes a b) ∧
+    (∀ (wc1 wc2 : Int) (a1 a2 : List UInt8), a1.length = a2.length →
+      ltUnsigned (Bits.intToBits 32 wc1 ++ Bits.bytesToBits a1) (Bits.intToBits 32 wc2 ++ Bits.bytesToBits a2) =
+        ltAddr wc1 a1 wc2 a2) := by
+  refine ⟨uint_compare_eq, ?_, ?_, ?_⟩
+  · intro n a b ka kb ha hb hn la ua lb ub
+    obtain ⟨ka', h1, _, h2⟩ := encIntKey_inRange n a hn la ua
+    obtain ⟨kb', h3, _, h4⟩ := encIntKey_inRange n b hn lb ub
+    rw [ha] at h1; rw [hb] at h3
+    cases h1; cases h3
+    simp [ltSigned, h2, h4]
+  · intro a b h
+    have hl : (Bits.bytesToBits a).length = (Bits.bytesToBits b).length := by
+      rw [bytesToBits_length, bytesToBits_length, h]
+    rw [ltUnsigned_eq_fast _ _ hl, ltBytes_eq_lexLt a b h]; rfl
+  · intro wc1 wc2 a1 a2 h
+    have hl : (Bits.intToBits 32 wc1 ++ Bits.bytesToBits a1).length =
+        (Bits.intToBits 32 wc2 ++ Bits.bytesToBits a2).length := by
+      simp only [List.length_append, Bits.intToBits, Bits.natToBits_length, bytesToBits_length, h]
+    rw [ltUnsigned_eq_fast _ _ hl, addr_compare_eq wc1 wc2 a1 a2 h]; rfl
 
 /-! ## Cell capacity -/
 
@@ -489,5 +615,16 @@ example : examplePruned.covers (i8 3) = true ∧ examplePruned.covers (i8 64) = 
 
 /-- test on literals: the pruned example decodes to the revealed pair only -/
 example : unmarshalE u32Codec 8 (wrapE (examplePruned.toCell u32Pay 8)) = .ok [(i8 3, u32 11)] := by decide
+
+/-- a canonical tree under key size 16: root hml_same (9 zero bits: 3 + 5 < 2 + 5 + 9), below it two leaves with
+hml_long (6 mixed bits, length field k = 3 < 6) -/
+def canonicalExample : HTree (List Bool) :=
+  .fork (.same false 9) (.leaf (.long [true, false, true, true, false, true]) (u32 1))
+    (.leaf (.long [false, true, true, false, false, true]) (u32 2))
+
+example : canonicalExample.Valid 16 ∧ canonicalExample.Canonical 16 := by
+  refine ⟨by simp [canonicalExample, HTree.Valid, Lbl.bits], ?_⟩
+  simp only [canonicalExample, HTree.Canonical, Lbl.bits]
+  decide
 
 end Tongo.C05
